@@ -408,6 +408,11 @@ class Kernel:
         if t == "letc":
             v = self.expr(e[2], env)
             return ("op", "matches", v, ("const", render(e[1]) if False else "pat"))
+        if t == "mcall" and e[2] == "for_each" and len(e[4]) == 1 and is_node(e[4][0]) and e[4][0][0] == "closure" and len(e[4][0][1]) == 1:
+            # `ITER.for_each(|pat| body)` is the loop `for pat in ITER { body }` (same element order, no early exit)
+            cl = e[4][0]
+            body = cl[2][1] if (is_node(cl[2]) and cl[2][0] == "block") else [["expr", cl[2], True]]
+            return self.expr(["for", cl[1][0], e[1], body], env)
         if t == "mcall":
             return self.mcall(e, env)
         if t == "call":
